@@ -59,6 +59,15 @@ class FakeSock(object):
     def getsockopt(self, *a):
         return 0
 
+    def connect(self, addr):
+        raise socket.error(errno.EINPROGRESS, 'in progress')
+
+    def setblocking(self, f):
+        pass
+
+    def ioctl(self, *a):
+        pass
+
     def setsockopt(self, *a):
         pass
 
@@ -66,10 +75,27 @@ class FakeSock(object):
         self.closed = True
 
 
-def run_case(msgs, corrupt, sends, recvs, recv_buf=64, send_buf=2 ** 16):
+class _SockMod(object):
+    """the `socket` module as tcp_connection sees it when the SAME connection object dials again: hands out the socket the
+    script has prepared"""
+    error = socket.error
+    errno = errno
+
+    def __init__(self):
+        self.next = None
+
+    def __getattr__(self, name):
+        return getattr(socket, name)
+
+    def socket(self, *a, **kw):
+        return self.next
+
+
+def run_case(msgs, corrupt, sends, recvs, recv_buf=64, send_buf=2 ** 16, prelude=None):
     """msgs: list of python objects to send; corrupt: None | (frame index 1-based, kind, value);
     sends: list of byte counts accepted by the sender's socket; recvs: list of byte counts per READ event."""
     import pysyncobj.tcp_connection as T
+    import pysyncobj.pickle as P_
     from pysyncobj.poller import POLL_EVENT_TYPE
     T.monotonicTime = lambda: 1000.0
     poller = FakePoller()
@@ -79,6 +105,29 @@ def run_case(msgs, corrupt, sends, recvs, recv_buf=64, send_buf=2 ** 16):
     receiver = T.TcpConnection(poller, socket=rs, timeout=1e9, sendBufferSize=2 ** 16, recvBufferSize=recv_buf)
     receiver.setOnMessageReceivedCallback(lambda m: delivered.append(m))
     receiver.setOnDisconnectedCallback(lambda: ndisc.__setitem__(0, ndisc[0] + 1))
+    if prelude is not None:
+        # The receiving connection object has a past: on its previous connection it had read `prelude` bytes of a frame
+        # (the length field and part of the payload) when that connection was given up; the object then dialled again
+        # (TCPTransport re-uses its outgoing connection objects).  What follows is the new connection's stream.
+        old = zlib.compress(P_.dumps(('old-connection', 'x' * 300)), 3)
+        rs.recv_script = [(struct.pack('i', len(old)) + old)[:prelude]]
+        try:
+            receiver._TcpConnection__processConnection(rs.fileno(), POLL_EVENT_TYPE.READ)
+        except Exception:
+            pass
+        receiver.disconnect()
+        mod = _SockMod()
+        rs = FakeSock()
+        mod.next = rs
+        saved = T.socket
+        T.socket = mod
+        try:
+            receiver.connect('10.0.0.1', 1)
+            receiver._TcpConnection__processConnection(rs.fileno(), POLL_EVENT_TYPE.WRITE)
+        finally:
+            T.socket = saved
+        delivered[:] = []
+        ndisc[0] = 0
     steps = []
     # frame layout from the real bytes
     import pysyncobj.pickle as P
@@ -190,6 +239,12 @@ def gen_cases(tier, seed):
         for npieces in (1, 2, 3):
             cases.append((small, None, [[sb] * npieces] + [[sb] * 2] * 8 + [[total]], [total], 64, sb))
             cases.append((small, None, [[sb] * npieces, [3], [sb, sb]] + [[total]], [5, 7, total], 64, sb))
+    # the receiving connection object is re-used after a connection that ended in the middle of a frame
+    for prelude in (4, 5, 9, 40):
+        for cut in (1, 3, total // 2, total - 1):
+            cases.append((small, None, [total], [cut], 64, 2 ** 16, prelude))
+        cases.append((small, None, [1] * total, [1] * total, 64, 2 ** 16, prelude))
+        cases.append((small, (2, 'payload', 0), [total], [total // 2], 64, 2 ** 16, prelude))
     # byte-by-byte
     for c in corrs:
         cases.append((small, c, [1] * total, [1] * total))
